@@ -177,7 +177,7 @@ class Builder:
 def program(draw):
     cls = draw(st.sampled_from(CTXS))
     b = Builder(draw, cls)
-    kind = draw(st.sampled_from(["select", "select", "select", "insert", "insert_select", "upsert", "update", "update_from", "update_join", "delete"]))
+    kind = draw(st.sampled_from(["select", "select", "select", "insert", "insert_select", "upsert", "upsert_select", "update", "update_from", "update_join", "delete"]))
     table_keys = ["P", "B", "A", "S", "SA", "P2", "D"]
     steps = b.steps
     multi = False
@@ -281,6 +281,24 @@ def program(draw):
         if draw(st.booleans()):
             steps.append(["where", [b.crit([fk], "where")]])
         meta["select_sources"] = [fk]
+    elif kind == "upsert_select":
+        # INSERT .. SELECT over two joined sources .. ON CONFLICT: the select qualifies its columns, the conflict clause must not
+        tk = draw(st.sampled_from(["P", "B"]))
+        fk, gk = draw(st.sampled_from([("D", "SA"), ("A", "D"), ("S", "A")]))
+        sources += [fk, gk]
+        steps.append(["into", [["src", tk]]])
+        steps.append(["columns", [b.f(tk, "insert_columns"), b.f(tk, "insert_columns")]])
+        steps.append(["from_", [["src", fk]]])
+        steps.append(["join", [["src", gk], ["enum", "JoinType", "inner"]], {}, ["on", [["eq", b.f(fk, "on"), b.f(gk, "on")]]]])
+        steps.append(["select", [b.f(fk, "select"), b.f(gk, "select")]])
+        steps.append(["on_conflict", [b.f(tk, "conflict_target")]])
+        steps.append(["do_update", [b.f(tk, "conflict_set_target"), ["raw", 1]]])
+        if draw(st.booleans()):
+            b.n += 1
+            nm = "f%d" % b.n
+            b.occ.append([nm, tk, "conflict_excluded"])
+            steps.append(["do_update", [["py", nm]]])
+        meta["select_sources"] = [fk, gk]
     elif kind in ("update", "update_from", "update_join"):
         tk = draw(st.sampled_from(["P", "B", "S", "A"]))
         sources.append(tk)
@@ -322,6 +340,8 @@ def multi_source(case):
     kind = case["kind"]
     if kind == "insert_select":
         return False
+    if kind == "upsert_select":
+        return True  # the SELECT part has two sources
     if kind in ("insert", "upsert", "delete", "update"):
         return bool(case.get("foreign"))
     if kind in ("update_from", "update_join"):
@@ -457,7 +477,7 @@ def check_case(case):
 def valid_case(case):
     try:
         ok = case["cls"] in CTXS and all(len(o) == 3 and (o[1] is None or o[1] in POOL) for o in case["occ"]) and all(s in POOL for s in case["sources"]) and case["kind"] in (
-            "select", "insert", "insert_select", "upsert", "update", "update_from", "update_join", "delete")
+            "select", "insert", "insert_select", "upsert", "upsert_select", "update", "update_from", "update_join", "delete")
         if not ok:
             return False
         # the recorded facts must still describe the program
@@ -488,7 +508,7 @@ def valid_case(case):
             return False
         declared = [s[1][0][1] for s in case["steps"] if s[0] in ("from_", "into", "update") and s[1] and s[1][0][0] == "src"] + [s[1][0][1] for s in case["steps"] if s[0] == "join"]
         want = set(case["sources"])
-        if case["kind"] in ("insert_select",):
+        if case["kind"] in ("insert_select", "upsert_select"):
             return True
         return want <= set(declared) and set(d for d in declared if case["kind"] not in ("insert", "upsert") or True) <= want | set(declared[:1])
     except (Exception, HarnessError):
